@@ -295,7 +295,7 @@ def excluded_reason(m):
     if m["surrogate"]:
         return "not_unicode"  # lone surrogates are not Unicode text
     if not m["nfkc"]:
-        return "nfkc_ident"  # F34/F1: Python NFKC-normalises identifiers of the generated code
+        return "nfkc_ident"  # F37/F1: Python NFKC-normalises identifiers of the generated code
     if m["block"] >= MAX_BLOCK_DEPTH or m["fors"] >= MAX_FOR_WORDS:
         return "block_depth"  # F2: CPython's static nesting limits
     if m["expr"] >= MAX_EXPR_DEPTH or m["chain"] >= MAX_CHAIN:
